@@ -320,18 +320,80 @@ def rule_html(ctx: Ctx) -> RuleResult:
     return rr
 
 
+def rule_html_cursor_columns(ctx: Ctx) -> RuleResult:
+    """The HTML back-end finds the cursor cell by comparing the canvas cursor column with a running column: every
+    quantity that is added to / compared with it is a screen-column count (calc_width), never a character count
+    (len) - the two differ for double-width and zero-width characters."""
+    p = ctx.p
+    rr = RuleResult("KIND", "C04.10", "html draw_screen: what is added to / compared with the cursor column is measured in screen columns (calc_width), not characters", floor=3)
+    dr = p.func(f"{HTML}.HtmlGenerator.draw_screen")
+    du = DefUse(dr)
+    cx = None
+    for n in dr.own_nodes():
+        if isinstance(n, ast.Assign) and isinstance(n.targets[0], ast.Tuple) and len(n.targets[0].elts) == 2 and isinstance(n.value, ast.Attribute) and n.value.attr == "cursor" and isinstance(n.targets[0].elts[0], ast.Name):
+            cx = n.targets[0].elts[0].id
+    if cx is None:
+        raise AnalysisError("html draw_screen: the unpacking of canvas.cursor was not found")
+
+    def colkind(e, at, depth=0, seen=None):
+        """None when e is a column quantity, else the offending sub-expression"""
+        seen = seen if seen is not None else set()
+        if depth > 8:
+            return None
+        if isinstance(e, ast.Constant):
+            return None
+        if isinstance(e, ast.Name):
+            if e.id == cx:
+                return None
+            for v, how, dn in du.reaching(e.id, at):
+                if (e.id, dn.id) in seen:
+                    continue
+                seen.add((e.id, dn.id))
+                if how == "aug" or isinstance(getattr(dn, "ast", None), ast.AugAssign):
+                    v = dn.ast.value
+                if not isinstance(v, ast.AST):
+                    return e
+                bad = colkind(v, dn, depth + 1, seen)
+                if bad is not None:
+                    return bad
+            return None
+        if isinstance(e, ast.BinOp) and isinstance(e.op, (ast.Add, ast.Sub)):
+            return colkind(e.left, at, depth + 1, seen) or colkind(e.right, at, depth + 1, seen)
+        if isinstance(e, ast.Call) and callee_name(e) == "calc_width":
+            return None
+        return e
+
+    cfg = du.cfg
+    for node in cfg.nodes:
+        if node.ast is None or node.kind in ("for", "with", "handler"):
+            continue
+        for c in walk_no_nested(node.ast):
+            ops = []
+            if isinstance(c, ast.Compare) and any(isinstance(x, ast.Name) and x.id == cx for x in ast.walk(c)) and not any(isinstance(o, (ast.Is, ast.IsNot)) for o in c.ops):
+                ops = [c.left, *c.comparators]
+            elif isinstance(c, ast.BinOp) and isinstance(c.op, (ast.Add, ast.Sub)) and any(isinstance(x, ast.Name) and x.id == cx for x in (c.left, c.right)):
+                ops = [c.left, c.right]
+            for o in ops:
+                rr.inst(f"{norm(c, 40)}:{norm(o, 20)}", True, {"expression": norm(c, 50)} if len(rr.samples) < 4 else None)
+                bad = colkind(o, node)
+                if bad is not None:
+                    rr.add(finding("KIND", dr, node.stmt, f"`{norm(c, 50)}` relates the cursor column to `{norm(bad, 40)}`, which is not a screen-column count (calc_width): with double-width or zero-width characters before the cursor the highlighted cell is the wrong one", construct=f"cursor column vs {norm(bad, 40)}"))
+    return rr
+
+
 def run(ctx: Ctx):
     r6 = c17.rule_palette_cache(ctx, "C04.6")
     r7 = c17.rule_palette_total(ctx, "C04.7")
     r8 = c17.rule_palette_order(ctx)
     r8.clause = "C04.8"
     r9 = accum.run_accum(ctx.p, "C04.9", "C04", floor=1)
-    return [rule_triple(ctx), rule_last_row_triple(ctx), rule_cursor(ctx), rule_repaint(ctx), rule_charset_first(ctx), rule_html(ctx), r6, r7, r8, r9]
+    return [rule_triple(ctx), rule_last_row_triple(ctx), rule_cursor(ctx), rule_repaint(ctx), rule_charset_first(ctx), rule_html(ctx), rule_html_cursor_columns(ctx), r6, r7, r8, r9]
 
 
 _RW = "urwid/display/_raw_display_base.py"
 _HT = "urwid/display/html_fragment.py"
 MUTANTS = [
+    Mut("html-cursor-by-characters", _HT, "HtmlGenerator.draw_screen", "run_width = str_util.calc_width(t_run, 0, len(t_run))", "run_width = len(t_run)", "KIND|display.html_fragment.HtmlGenerator.draw_screen"),
     Mut("back-step-width-of-inserted", _RW, "urwid.display._raw_display_base.Screen._last_row", "return new_row, str_util.calc_width(z_text, 0, len(z_text)), (y_attr, y_cs, y_text)", "return new_row, z_col - y_col, (y_attr, y_cs, y_text)", "TRIPLE|display._raw_display_base.Screen._last_row|back-step"),
     Mut("twin-back-step-via-local", _RW, "urwid.display._raw_display_base.Screen._last_row", "        return new_row, str_util.calc_width(z_text, 0, len(z_text)), (y_attr, y_cs, y_text)", "        zw = str_util.calc_width(z_text, 0, len(z_text))\n        return new_row, zw, (y_attr, y_cs, y_text)", twin=True),
     Mut("no-resize-recheck", _RW, "urwid.display._raw_display_base.Screen.draw_screen", "        if self._resized:\n            # handle resize before trying to draw screen\n            return\n        try:", "        try:", "INV|display._raw_display_base.Screen.draw_screen|no _resized test"),
